@@ -365,10 +365,14 @@ class MList(SList):
             raise PyRaise(IndexError('pop from empty list'))
         if isinstance(pos, int) and pos == -1:
             v = self._elem(interp, z3.simplify(self.length - 1))
+            # (join measures of the base list are carried over the removal of its last item, see _joins_without_last)
+            joins = dict(self.base_measures) if (not self.tail and not self.base_empty
+                                                 and self.shape == ('str',)) else {}
             self.length = z3.simplify(self.length - 1)
             self.cache = {}
             self.version += 1
             self.new_base()
+            _joins_without_last(interp, self, joins, v)
             return v
         if isinstance(pos, int) and pos == 0:
             v = self._elem(interp, z3.IntVal(0))
@@ -529,6 +533,65 @@ def apply_measure(interp, m, args):
     raise Unsupported('measure %s of %r (only lists built by the code and MListOf lists)' % (m.name, type(xs).__name__))
 
 
+_JOIN_SEPS = {}       # key of a join measure -> the separator term (to carry the measure over `del xs[-1]`)
+
+
+def _joins_without_last(interp, xs, joins, last):
+    """xs has just lost its last item `last` (it had no tail: it was its base list).  For every join measure J
+    known of the old list the new base list gets the measure J' with  J == J' + sep + last  (J' == '' and
+    J == last when the new list is empty): sep.join(ys + [y]) == sep.join(ys) + sep + y for non-empty ys."""
+    st = interp.st
+    for key, j in joins.items():
+        if key[0] != 'str.join' or key not in _JOIN_SEPS:
+            continue
+        sep_t = _JOIN_SEPS[key]
+        j2 = st.fresh_str('join(%s#%d)' % (xs.uid, xs.mversion))
+        if st.must_hold_lengths(xs.base_len > 0):
+            # J == J' . sep . last  as a decomposition of J that later cuts of J are aligned with
+            from . import strings
+            parts = [j2, sep_t, to_z3(last)]
+            st._add(j == z3.Concat(*parts))
+            if strings._is_piece(j):
+                strings._decomps(interp, j).append(strings._dec(interp, parts))
+            strings.note_concat(interp, j, parts)
+        else:
+            st._add(z3.Implies(xs.base_len == 0, z3.And(j2 == z3.StringVal(''), j == to_z3(last))))
+            st._add(z3.Implies(xs.base_len > 0, j == z3.Concat(j2, sep_t, to_z3(last))))
+        xs.base_measures[key] = j2
+
+
+def split_all(interp, t, sep):
+    """t.split(sep) for a single-character separator as a mutable list of strings (used with string alignment
+    on): count(sep) + 1 items, none of which contains sep; sep.join of it is t (its join measure); the last item
+    is what follows the last separator."""
+    from . import strings
+    st = interp.st
+    f = strings.count_fn(interp, sep)
+    strings._count_facts(interp, f, sep, t)
+    n = st.fresh_int('split.len')
+    st.assume(n == f(t) + 1)
+    xs = MList(interp, st.fresh_name('split'), ('str',), length=n)
+    sep_t = z3.StringVal(sep)
+    key = ('str.join', _param_key([sep]))
+    _JOIN_SEPS[key] = sep_t
+    xs.base_measures[key] = t
+    arr = xs.arrs[()]
+    j = z3.Int('j!split')
+    st._add(z3.ForAll([j], z3.Implies(z3.And(j >= 0, j < n),
+                                      z3.And(f(z3.Select(arr, j)) == 0,
+                                             z3.Not(z3.Contains(z3.Select(arr, j), sep_t)))),
+                      patterns=[z3.Select(arr, j)]))
+    last = z3.Select(arr, n - 1)
+    pre = st.fresh_str('split.before-last')
+    st._add(z3.Implies(n == 1, t == last))
+    st._add(z3.Implies(n > 1, t == z3.Concat(pre, sep_t, last)))
+    st._add(z3.And(f(last) == 0, z3.Not(z3.Contains(last, sep_t))))
+    # (a consequence of the three facts above, stated for the solvers: the last item is empty exactly when
+    # nothing follows the last separator)
+    st._add((last == z3.StringVal('')) == z3.Or(t == z3.StringVal(''), z3.SuffixOf(sep_t, t)))
+    return xs
+
+
 def join(interp, sep, xs):
     """sep.join(xs) for a symbolic mutable list of strings: a left fold like a measure"""
     st = interp.st
@@ -541,6 +604,7 @@ def join(interp, sep, xs):
         empty = z3.BoolVal(True)
     else:
         key = ('str.join', _param_key([sep]))
+        _JOIN_SEPS.setdefault(key, sep_t)
         if key not in xs.base_measures:
             j = st.fresh_str('join(%s#%d)' % (xs.uid, xs.mversion))
             st._add(z3.Implies(xs.base_len == 0, j == z3.StringVal('')))
